@@ -3,7 +3,7 @@
    field_theory), every environment (geometry jets, field values, parameters, basis
    function jets, uninterpreted builtin functions) and every expression tree. *)
 From Coq Require Import List String Bool Arith Field.
-From Verif.C06 Require Import Model Proofs.
+From Verif.C06 Require Import Model Proofs Sched Ops Phys Phys3 PhysST Compose.
 Import ListNotations.
 
 Section Statements.
@@ -107,16 +107,7 @@ Theorem eval_depends_only_on_mentioned_vars : forall (en1 en2 : env F) e,
   eval en1 e = eval en2 e.
 Proof. exact (eval_ext_l F fadd fmul fsub fdiv fopp). Qed.
 
-(* NOT PROVED: schedule_wf_sound --
-     forall sourced ds en, wf_sched F sourced ds = true ->
-     forall name t, In (name, t) ds ->
-       respects F fadd fmul fsub fdiv fopp (eval_defs F f0 fadd fmul fsub fdiv fopp en ds) name t
-   (evaluating the definitions in an order accepted by the checker yields an environment in which
-   every variable has the value of its defining expression).  Missing: the induction over the list
-   with the row-major index lemma relating [tat t Ix] to [nth (flat_index (tshape t) Ix) (tentries t)].
-   Proved instead: one step of the order for a scalar definition, and that later bindings of other
-   names do not disturb it.  The checker itself is evaluated (in Coq) on the emitted order of every
-   generated form, and def-before-use is checked directly on the implementation's output. *)
+(* one step of the emitted order (kept from round 1; the full statement is schedule_wf_sound below) *)
 Theorem schedule_wf_partial : forall (en : env F) name e D p,
   mem name (vrefs F e) = false ->
   let en' := bind F f0 en name [] [eval en e] in
@@ -128,13 +119,172 @@ Theorem schedule_later_bindings_do_not_interfere : forall (en : env F) name name
   e_vr (bind F f0 en name' shape vals) name Ix D p = e_vr en name Ix D p.
 Proof. exact (bind_other_l F f0). Qed.
 
-(* NOT PROVED (covered by the exact oracle on every generated form and by the regenerated
-   obligations coq/gen/C06_ops_*.v only):
-   - finalize_sound: the composition of all passes in the order of VForm.finalize, including the
-     traversal of shared nodes by mapexprs, measure and normal expansion, insert_input_field_derivs,
-     the space-time split and substitute_vec_components;
-   - tensor_ops_sound for arbitrary sizes (the regenerated obligations prove det/inv/cross/products/
-     traces/transposes for n <= 3 on the implementation's own output). *)
+(* ---- the emitted order ------------------------------------------------------------------ *)
+(* A schedule accepted by the checker evaluates every variable after its dependencies: in the
+   environment obtained by evaluating the definitions in that order, every variable has -- at
+   every index inside its shape -- the value of its defining entry. *)
+Theorem schedule_wf_sound : forall ds known (en : env F),
+  wf_sched F known ds = true ->
+  forall name t, In (name, t) ds ->
+  forall Ix, in_shape (tshape F t) Ix ->
+  exists e, tat F t Ix = Some e /\
+            forall D p, e_vr (eval_defs F f0 fadd fmul fsub fdiv fopp en ds) name Ix D p =
+                        eval (eval_defs F f0 fadd fmul fsub fdiv fopp en ds) e.
+Proof. exact (schedule_wf_sound_l F f0 fadd fmul fsub fdiv fopp). Qed.
+
+(* ... and that environment is THE denotation: every environment that agrees on the sourced
+   variables and satisfies the binding equations agrees with it on every variable. *)
+Theorem schedule_computes_the_denotation : forall ds known (en en' : env F),
+  wf_sched F known ds = true ->
+  e_pd en' = e_pd en -> e_gw en' = e_gw en -> e_dx en' = e_dx en -> e_ds en' = e_ds en -> e_fn en' = e_fn en ->
+  (forall n, In n known -> forall Ix D p, e_vr en' n Ix D p = e_vr en n Ix D p) ->
+  solves F f0 fadd fmul fsub fdiv fopp en' ds ->
+  forall n, In n (known ++ map fst ds) ->
+  forall Ix D p, e_vr en' n Ix D p = e_vr (eval_defs F f0 fadd fmul fsub fdiv fopp en ds) n Ix D p.
+Proof. exact (schedule_unique_l F f0 fadd fmul fsub fdiv fopp). Qed.
+
+(* ---- operator expansions of the model ----------------------------------------------------- *)
+Theorem reduce_add_sound : forall (en : env F) l e,
+  reduce_add F l = Some e ->
+  exists x r, l = x :: r /\ eval en e = fold_left fadd (map (eval en) r) (eval en x).
+Proof. exact (reduce_add_sound_l F fadd fmul fsub fdiv fopp). Qed.
+
+(* det by Laplace expansion = the Leibniz formula, n = 2, 3 *)
+Theorem det_spec_2 : forall (en : env F) a00 a01 a10 a11,
+  exists d, e_det F f1 fopp 3 [[a00; a01]; [a10; a11]] = Some d /\
+  eval en d = fsub (fmul (eval en a00) (eval en a11)) (fmul (eval en a01) (eval en a10)).
+Proof. exact (det_spec_2_l F f0 f1 fadd fmul fsub fdiv fopp finv Fth). Qed.
+
+Theorem det_spec_3 : forall (en : env F) a00 a01 a02 a10 a11 a12 a20 a21 a22,
+  exists d, e_det F f1 fopp 4 [[a00; a01; a02]; [a10; a11; a12]; [a20; a21; a22]] = Some d /\
+  eval en d =
+    fsub (fsub (fsub (fadd (fadd (fmul (fmul (eval en a00) (eval en a11)) (eval en a22))
+                                 (fmul (fmul (eval en a01) (eval en a12)) (eval en a20)))
+                           (fmul (fmul (eval en a02) (eval en a10)) (eval en a21)))
+                     (fmul (fmul (eval en a02) (eval en a11)) (eval en a20)))
+               (fmul (fmul (eval en a01) (eval en a10)) (eval en a22)))
+         (fmul (fmul (eval en a00) (eval en a12)) (eval en a21)).
+Proof. exact (det_spec_3_l F f0 f1 fadd fmul fsub fdiv fopp finv Fth). Qed.
+
+(* inv: inv(A) A = A inv(A) = I wherever det A <> 0, n = 1, 2, 3 *)
+Theorem inv_spec_1 : forall (en : env F) a, let A := [[a]] in
+  detv F f0 f1 fadd fmul fsub fdiv fopp en A <> f0 ->
+  forall i j, i < 1 -> j < 1 ->
+  fsum F f0 fadd 1 (fun k => fmul (ientry F f0 f1 fadd fmul fsub fdiv fopp en A i k) (entry F f0 fadd fmul fsub fdiv fopp en A k j)) = delta F f0 f1 i j /\
+  fsum F f0 fadd 1 (fun k => fmul (entry F f0 fadd fmul fsub fdiv fopp en A i k) (ientry F f0 f1 fadd fmul fsub fdiv fopp en A k j)) = delta F f0 f1 i j.
+Proof. exact (inv_spec_1_l F f0 f1 fadd fmul fsub fdiv fopp finv Fth). Qed.
+
+Theorem inv_spec_2 : forall (en : env F) a00 a01 a10 a11, let A := [[a00; a01]; [a10; a11]] in
+  detv F f0 f1 fadd fmul fsub fdiv fopp en A <> f0 ->
+  forall i j, i < 2 -> j < 2 ->
+  fsum F f0 fadd 2 (fun k => fmul (ientry F f0 f1 fadd fmul fsub fdiv fopp en A i k) (entry F f0 fadd fmul fsub fdiv fopp en A k j)) = delta F f0 f1 i j /\
+  fsum F f0 fadd 2 (fun k => fmul (entry F f0 fadd fmul fsub fdiv fopp en A i k) (ientry F f0 f1 fadd fmul fsub fdiv fopp en A k j)) = delta F f0 f1 i j.
+Proof. exact (inv_spec_2_l F f0 f1 fadd fmul fsub fdiv fopp finv Fth). Qed.
+
+Theorem inv_spec_3 : forall (en : env F) a00 a01 a02 a10 a11 a12 a20 a21 a22,
+  let A := [[a00; a01; a02]; [a10; a11; a12]; [a20; a21; a22]] in
+  detv F f0 f1 fadd fmul fsub fdiv fopp en A <> f0 ->
+  forall i j, i < 3 -> j < 3 ->
+  fsum F f0 fadd 3 (fun k => fmul (ientry F f0 f1 fadd fmul fsub fdiv fopp en A i k) (entry F f0 fadd fmul fsub fdiv fopp en A k j)) = delta F f0 f1 i j /\
+  fsum F f0 fadd 3 (fun k => fmul (entry F f0 fadd fmul fsub fdiv fopp en A i k) (ientry F f0 f1 fadd fmul fsub fdiv fopp en A k j)) = delta F f0 f1 i j.
+Proof. exact (inv_spec_3_l F f0 f1 fadd fmul fsub fdiv fopp finv Fth). Qed.
+
+Theorem cross_spec : forall (en : env F) x0 x1 x2 y0 y1 y2,
+  let t := TCross (TLV [x0; x1; x2]) (TLV [y0; y1; y2]) in
+  exists c0 c1 c2, tat F t [0] = Some c0 /\ tat F t [1] = Some c1 /\ tat F t [2] = Some c2 /\
+  eval en c0 = fsub (fmul (eval en x1) (eval en y2)) (fmul (eval en x2) (eval en y1)) /\
+  eval en c1 = fsub (fmul (eval en x2) (eval en y0)) (fmul (eval en x0) (eval en y2)) /\
+  eval en c2 = fsub (fmul (eval en x0) (eval en y1)) (fmul (eval en x1) (eval en y0)).
+Proof. exact (cross_spec_l F fadd fmul fsub fdiv fopp). Qed.
+
+(* ---- substitute_vec_components ------------------------------------------------------------ *)
+(* entry (i, j) of the component matrix is the form with u = phi e_j, v = psi e_i *)
+Theorem vec_component_subst_sound : forall (en : env F) bu bv i j e,
+  eval en (subst_vec2 F f0 bu bv i j e) =
+  eval (env_unit F f0 (env_unit F f0 en bu j) bv i) e.
+Proof. exact (subst_vec2_sound_l F f0 fadd fmul fsub fdiv fopp). Qed.
+
+Theorem vec_component_subst_sound_arity1 : forall (en : env F) name keep e,
+  eval en (subst_bf F f0 name keep e) = eval (env_unit F f0 en name keep) e.
+Proof. exact (subst_bf_sound_l F f0 fadd fmul fsub fdiv fopp). Qed.
+
+(* ---- replace_physical_derivs + _geo_hess_trf of the model ---------------------------------- *)
+(* For every geometry 2-jet (J, HG) with det J <> 0 and all physical jets (gu, Hu) of the
+   function: in the environment where the parametric jets are the composition of the physical
+   jets with the geometry 2-jet, JacInv is the model's inv of J and the derivatives of the
+   geometry are J and HG, the expression emitted for the physical derivative (with its helper
+   variables evaluated) is the physical jet entry.  Dimensions 1, 2, 3. *)
+Theorem physical_grad_sound_1 : forall J HG gu Hu u0,
+  detJ F f0 f1 fadd fmul fsub fdiv fopp J 1 <> f0 -> forall k, k < 1 -> grad_ok F f0 f1 fadd fmul fsub fdiv fopp J HG gu Hu u0 1 k.
+Proof. exact (physical_grad_1_l F f0 f1 fadd fmul fsub fdiv fopp finv Fth). Qed.
+Theorem physical_grad_sound_2 : forall J HG gu Hu u0,
+  detJ F f0 f1 fadd fmul fsub fdiv fopp J 2 <> f0 -> forall k, k < 2 -> grad_ok F f0 f1 fadd fmul fsub fdiv fopp J HG gu Hu u0 2 k.
+Proof. exact (physical_grad_2_l F f0 f1 fadd fmul fsub fdiv fopp finv Fth). Qed.
+Theorem physical_grad_sound_3 : forall J HG gu Hu u0,
+  detJ F f0 f1 fadd fmul fsub fdiv fopp J 3 <> f0 -> forall k, k < 3 -> grad_ok F f0 f1 fadd fmul fsub fdiv fopp J HG gu Hu u0 3 k.
+Proof. exact (physical_grad_3_l F f0 f1 fadd fmul fsub fdiv fopp finv Fth). Qed.
+Theorem physical_hess_sound_1 : forall J HG gu Hu u0,
+  detJ F f0 f1 fadd fmul fsub fdiv fopp J 1 <> f0 -> forall i j, i < 1 -> j < 1 -> hess_ok F f0 f1 fadd fmul fsub fdiv fopp J HG gu Hu u0 1 i j.
+Proof. exact (physical_hess_1_l F f0 f1 fadd fmul fsub fdiv fopp finv Fth). Qed.
+Theorem physical_hess_sound_2 : forall J HG gu Hu u0,
+  detJ F f0 f1 fadd fmul fsub fdiv fopp J 2 <> f0 -> forall i j, i < 2 -> j < 2 -> hess_ok F f0 f1 fadd fmul fsub fdiv fopp J HG gu Hu u0 2 i j.
+Proof. exact (physical_hess_2_l F f0 f1 fadd fmul fsub fdiv fopp finv Fth). Qed.
+Theorem physical_hess_sound_3 : forall J HG gu Hu u0,
+  detJ F f0 f1 fadd fmul fsub fdiv fopp J 3 <> f0 -> forall i j, i < 3 -> j < 3 -> hess_ok F f0 f1 fadd fmul fsub fdiv fopp J HG gu Hu u0 3 i j.
+Proof. exact (physical_hess_3_l F f0 f1 fadd fmul fsub fdiv fopp finv Fth). Qed.
+
+(* The space-time split: on a cylinder G(x,t) = (G~(x), t) (Jacobian block diag (Js, 1)), for one
+   space derivative along axis k and ANY number n of time derivatives, the emitted expression has
+   the value of the physical derivative d_x_k d_t^n u~, and the helper variables are exactly the
+   parametric jets with n time derivatives (dims 2 and 3 = 1 and 2 space dimensions). *)
+Theorem spacetime_split_sound_2 : forall Js P name comp n en,
+  detJc F f0 f1 fadd fmul fsub fdiv fopp Js 2 <> f0 ->
+  st_env_ok F f0 f1 fadd fmul fsub fdiv fopp Js P 2 name comp n en ->
+  st_ok F f0 fadd fmul fsub fdiv fopp P 2 name comp n 0 en.
+Proof. exact (spacetime_split_2_l F f0 f1 fadd fmul fsub fdiv fopp finv Fth). Qed.
+Theorem spacetime_split_sound_3 : forall Js P name comp n en,
+  detJc F f0 f1 fadd fmul fsub fdiv fopp Js 3 <> f0 ->
+  st_env_ok F f0 f1 fadd fmul fsub fdiv fopp Js P 3 name comp n en ->
+  forall k, k < 2 -> st_ok F f0 fadd fmul fsub fdiv fopp P 3 name comp n k en.
+Proof. exact (spacetime_split_3_l F f0 f1 fadd fmul fsub fdiv fopp finv Fth). Qed.
+
+(* ---- the traversal and the composition of passes -------------------------------------------- *)
+Theorem transform_sound : forall en f,
+  sound_in F fadd fmul fsub fdiv fopp en f -> sound_in F fadd fmul fsub fdiv fopp en (transform F f).
+Proof. exact (transform_sound_l F fadd fmul fsub fdiv fopp). Qed.
+
+Theorem fold_constants_is_a_transform : forall near fzerob e,
+  fold_all F f0 f1 fadd fmul fsub fdiv fopp near fzerob e =
+  transform F (fold1 F f0 f1 fadd fmul fsub fdiv fopp near fzerob) e.
+Proof. exact (fold_all_is_transform_l F f0 f1 fadd fmul fsub fdiv fopp). Qed.
+
+Theorem passes_compose : forall en fs, Forall (sound_in F fadd fmul fsub fdiv fopp en) fs ->
+  forall e e', run_passes F fs e = Some e' -> eval en e' = eval en e.
+Proof. exact (run_passes_sound_l F fadd fmul fsub fdiv fopp). Qed.
+
+(* finalize on an integrand tree: replace_physical_derivs, then constant folding, then any further
+   value-preserving node functions (CSE replacement: cse_sound; trivial variables:
+   trivial_var_elim_sound), in every environment with exact constants in which each emitted
+   replacement has the value of the physical jet it replaces (physical_*_sound, spacetime_split_sound). *)
+Theorem finalize_sound_partial : forall near fzerob st d en rest,
+  (forall c v, near c v = true -> c = v) ->
+  (forall n c D p e' ds, rpd_bf F f0 st d n c D p = RNew e' ds -> eval en e' = e_pd en n c D p) ->
+  Forall (sound_in F fadd fmul fsub fdiv fopp en) rest ->
+  forall e e',
+  run_passes F (rpd_node F f0 st d :: fold1 F f0 f1 fadd fmul fsub fdiv fopp near fzerob :: rest) e = Some e' ->
+  eval en e' = eval en e.
+Proof. exact (finalize_tree_sound_l F f0 f1 fadd fmul fsub fdiv fopp finv Fth). Qed.
+
+(* NOT PROVED: finalize_sound in full -- the value of every integrand of VForm.exprs is unchanged by
+   VForm.finalize for every form.  Missing beyond finalize_sound_partial:
+   - the traversal of SHARED nodes and of variable roots by mapexprs (a variable's root is rewritten once
+     per reference; the model traverses trees), and the bookkeeping that the helper definitions returned by
+     rpd_bf are added to the forest and evaluated before use (schedule_wf_sound gives this for an accepted order);
+   - replace_physical_derivs on input-field references (VarRefExpr) and insert_input_field_derivs / sym_index_to_seq;
+   - measure and normal expansion (dx -> W, ds -> SW), para_derivs_to_vars, _to_literal_vec_mat for arbitrary sizes;
+   - physical derivatives in dimension > 3 or of order > 2 (the code raises for order > 2).
+   These remain covered by the exact oracle on every pass of every generated form and by the regenerated
+   obligations coq/gen/.../C06_ops_*.v only. *)
 
 End Statements.
 
@@ -152,3 +302,26 @@ Print Assumptions trivial_var_elim_sound.
 Print Assumptions eval_depends_only_on_mentioned_vars.
 Print Assumptions schedule_wf_partial.
 Print Assumptions schedule_later_bindings_do_not_interfere.
+Print Assumptions schedule_wf_sound.
+Print Assumptions schedule_computes_the_denotation.
+Print Assumptions reduce_add_sound.
+Print Assumptions det_spec_2.
+Print Assumptions det_spec_3.
+Print Assumptions inv_spec_1.
+Print Assumptions inv_spec_2.
+Print Assumptions inv_spec_3.
+Print Assumptions cross_spec.
+Print Assumptions vec_component_subst_sound.
+Print Assumptions vec_component_subst_sound_arity1.
+Print Assumptions physical_grad_sound_1.
+Print Assumptions physical_grad_sound_2.
+Print Assumptions physical_grad_sound_3.
+Print Assumptions physical_hess_sound_1.
+Print Assumptions physical_hess_sound_2.
+Print Assumptions physical_hess_sound_3.
+Print Assumptions spacetime_split_sound_2.
+Print Assumptions spacetime_split_sound_3.
+Print Assumptions transform_sound.
+Print Assumptions fold_constants_is_a_transform.
+Print Assumptions passes_compose.
+Print Assumptions finalize_sound_partial.
